@@ -154,6 +154,28 @@ fn repoint_steps(steps: &mut [Step], from: &[String], to: &str) {
     }
 }
 
+/// labels of the extraction rewrites, indexed by r1's code (0 plain; else 1 + 2*window-after + 4*aggregate-key)
+const R1_LABELS: [&str; 8] = [
+    "R1 let extraction",
+    "R1 let extraction (sorted prefix)",
+    "",
+    "R1 let extraction (sorted prefix, window after)",
+    "",
+    "R1 let extraction (sorted prefix, aggregate key)",
+    "",
+    "R1 let extraction (sorted prefix, window after, aggregate key)",
+];
+const R2_LABELS: [&str; 8] = [
+    "R2 into extraction",
+    "R2 into extraction (sorted prefix)",
+    "",
+    "R2 into extraction (sorted prefix, window after)",
+    "",
+    "R2 into extraction (sorted prefix, aggregate key)",
+    "",
+    "R2 into extraction (sorted prefix, window after, aggregate key)",
+];
+
 /// true if some step evaluates a window function (whose implicit ORDER BY is the sort in effect)
 fn steps_have_window(steps: &[Step]) -> bool {
     steps.iter().any(|s| match s {
@@ -244,7 +266,7 @@ fn r1(t: &mut Tape, prog: &mut Prog, into: bool) -> Option<u8> {
         },
         steps: rest,
     };
-    Some(if !sorted_prefix { 0 } else if agg_key { 3 } else if window_after { 2 } else { 1 })
+    Some(if !sorted_prefix { 0 } else { 1 + 2 * (window_after as u8) + 4 * (agg_key as u8) })
 }
 
 /// R3: replace an expression by a call to a user function whose body is that expression
@@ -384,8 +406,8 @@ pub fn gen_case(t: &mut Tape) -> Case {
         let done = match t.choose(6) {
             0 => r4(t, &mut p.main.steps).then_some("R4 filter split/merge"),
             1 => r5(t, &mut p.main.steps).then_some("R5 identity filter"),
-            2 => r1(t, &mut p, false).map(|s| ["R1 let extraction", "R1 let extraction (sorted prefix)", "R1 let extraction (sorted prefix, window after)", "R1 let extraction (sorted prefix, aggregate key)"][s as usize]),
-            3 => r1(t, &mut p, true).map(|s| ["R2 into extraction", "R2 into extraction (sorted prefix)", "R2 into extraction (sorted prefix, window after)", "R2 into extraction (sorted prefix, aggregate key)"][s as usize]),
+            2 => r1(t, &mut p, false).map(|s| R1_LABELS[s as usize]),
+            3 => r1(t, &mut p, true).map(|s| R2_LABELS[s as usize]),
             4 => r3(t, &mut p).then_some("R3 function abstraction"),
             _ => r6(&mut p).then_some("R6 move into module"),
         };
@@ -457,7 +479,7 @@ pub fn check(c: &Case, _known: &Known) -> Outcome {
             } else if extracted && src1.contains("append") && e.msg().contains("do not have the same number of result columns") && _known.is_open("C01-append-pruning") {
                 // the extraction makes the top input of an append a let-table
                 o.verdict = Verdict::Known("C01-append-pruning".into(), "let-extraction of the top input of an append".into());
-            } else if c.rewrites.iter().any(|r| r.contains("window after)"))
+            } else if c.rewrites.iter().any(|r| r.contains("window after"))
                 && e.msg().contains("requires one ORDER BY")
                 && _known.is_open("C06-let-sort-not-applied-to-windows")
             {
@@ -510,14 +532,14 @@ pub fn check(c: &Case, _known: &Known) -> Outcome {
         out.verdict = Verdict::Known("C01-append-pruning".into(), "let-extraction of the top input of an append".into());
         return out;
     }
-    if differs && c.rewrites.iter().any(|r| r.contains("aggregate key)")) && _known.is_open("C06-sorted-let-aggregate-key-recomputed") {
+    if differs && c.rewrites.iter().any(|r| r.contains("aggregate key")) && _known.is_open("C06-sorted-let-aggregate-key-recomputed") {
         out.verdict = Verdict::Known(
             "C06-sorted-let-aggregate-key-recomputed".into(),
             "let-extraction of a prefix sorted by an aggregation result".into(),
         );
         return out;
     }
-    if differs && c.rewrites.iter().any(|r| r.contains("window after)")) && _known.is_open("C06-let-sort-not-applied-to-windows") {
+    if differs && c.rewrites.iter().any(|r| r.contains("window after")) && _known.is_open("C06-let-sort-not-applied-to-windows") {
         out.verdict = Verdict::Known(
             "C06-let-sort-not-applied-to-windows".into(),
             "let-extraction of a sorted prefix followed by window functions".into(),
